@@ -328,6 +328,15 @@ fn project_path_of(v: &str) -> &'static str {
 }
 static LONG_NAME: std::sync::OnceLock<String> = std::sync::OnceLock::new();
 
+/// the output directory a file value names: "file2" is three levels deep, none of which exists
+fn out_path_of(v: &str) -> String {
+    if v == "file2" {
+        "./out-file2/nested/deeper".to_string()
+    } else {
+        format!("./out-{}", v)
+    }
+}
+
 fn is_missing_project(path: &str) -> bool {
     path == "./missing-dir" || path == project_path_of("through-file") || path == project_path_of("long-name")
 }
@@ -340,7 +349,7 @@ fn file_json(src: Source, f: &FileVals) -> String {
         o.insert(k("projectPath", "project_path"), json!(project_path_of(p)));
     }
     if let Some(p) = &f.output {
-        o.insert(k("outputPath", "output_path"), json!(format!("./out-{}", p)));
+        o.insert(k("outputPath", "output_path"), json!(out_path_of(p)));
     }
     if let Some(p) = &f.validation {
         o.insert(k("validationLibrary", "validation_library"), json!(p));
@@ -394,7 +403,7 @@ fn effective(c: &PrecCase) -> Effective {
     let fv = |x: &Option<String>| if file_present { x.clone() } else { None };
     Effective {
         project: if c.flags & 1 != 0 { if c.flag_defaults { P_DEFAULT.into() } else { P_ALT.into() } } else { fv(&c.file.project).map(|p| project_path_of(&p).to_string()).unwrap_or(P_DEFAULT.into()) },
-        output: if c.flags & 2 != 0 { if c.flag_defaults { "./src/generated".into() } else { "./out-flag".into() } } else { fv(&c.file.output).map(|o| format!("./out-{}", o)).unwrap_or("./src/generated".into()) },
+        output: if c.flags & 2 != 0 { if c.flag_defaults { "./src/generated".into() } else { "./out-flag".into() } } else { fv(&c.file.output).map(|o| out_path_of(&o)).unwrap_or("./src/generated".into()) },
         validation: if c.flags & 4 != 0 { if c.flag_defaults { "none".into() } else { flag_validation(&c.file).into() } } else { fv(&c.file.validation).unwrap_or("none".into()) },
         verbose: c.flags & 8 != 0 || (file_present && c.file.verbose == Some(true)),
         force: c.flags & 16 != 0 || (file_present && c.file.force == Some(true)),
